@@ -71,6 +71,15 @@ class Program:
     def get(self, modname, name):
         m = self.module(modname)
         if name not in m.env:
+            if isinstance(m.env.get("__getattr__"), FuncVal):
+                # a module that makes its attributes on first access (PEP 562): ask it
+                class _W:
+                    def where(self, node=None):
+                        return "module attribute probe"
+                try:
+                    return self.I.get_attr(m, name, None, _W())
+                except PyRaise:
+                    pass
             raise AnalysisError("anchor-missing", "%s:%s" % (modname, name))
         return m.env[name]
 
@@ -165,6 +174,16 @@ class Program:
             elif isinstance(st, (ast.FunctionDef, ast.ClassDef)):
                 out[st.name] = st.lineno
         return out
+
+    def read_class_attr(self, cls, name):
+        """what `Class.name` evaluates to (through a descriptor if the class keeps one under that name); None when it has none"""
+        class _W:
+            def where(self, node=None):
+                return "class attribute probe"
+        try:
+            return self.I.get_attr(cls, name, None, _W())
+        except PyRaise:
+            return None
 
     def func(self, modname, clsname, fname):
         """FuncVal of a method / function; AnalysisError if the anchor vanished"""
